@@ -384,7 +384,7 @@ func c10Run(c *Ctx) {
 	// text literals spelling the same number (in either order, either script)
 	for _, lit := range []string{"0", "1", "2", "1.5", "0.5", "2.0", "1.0000000000000002", "0.9999999999999999", "2.5", "\u09e7.\u09eb", "\u09e8", "1.00", "0.0001", "2.9999"} {
 		for _, form := range []string{Print("[10, 20, 30][%s]"), Var("a", "[10, 20, 30]") + " a[%s] = 99; " + Print("a"), Print(BI("remove", "[10, 20, 30]", "%s")), Print("1 << %s"), Print("[%s, %s + 1]"), Print(BI("abs", "%s") + " == %s"),
-			Print("{k: %s}.k"), If("%s", Print(`"truthy"`)), Print(BI("max", "%s", "0.7", "0.6")), Print(BI("min", "[12.5, %s, 12.75, 12.25]")), Print(BI("max", "0.25", "%s")), Print(BI("min", "%s + 0.25", "%s")), While("%s", "{ "+Print(`"once"`)+" "+Break()+" }"), Print("!%s"), Print("%s || 7"), Print("%s && 7"), Print(`"" + %s`), Var("i", "%s") + " " + Print("[10, 20, 30][i]")} {
+			Print("{k: %s}.k"), If("%s", Print(`"truthy"`)), Print(BI("max", "%s", "0.7", "0.6")), Print(BI("remove", "[10, 20, 30, 40]", "%s")), Print(BI("append", "[1]", "%s")), Print(BI("pow", "2", "%s")), Print(BI("round", "%s")), Print(BI("min", "[12.5, %s, 12.75, 12.25]")), Print(BI("max", "0.25", "%s")), Print(BI("min", "%s + 0.25", "%s")), While("%s", "{ "+Print(`"once"`)+" "+Break()+" }"), Print("!%s"), Print("%s || 7"), Print("%s && 7"), Print(`"" + %s`), Var("i", "%s") + " " + Print("[10, 20, 30][i]")} {
 			src := strings.ReplaceAll(form, "%s", lit) + "\n"
 			if c.Mine() {
 				c10Judge(c, &Case{Gen: "end-to-end", Src: src})
@@ -428,6 +428,16 @@ func c10Run(c *Ctx) {
 					}
 				}
 			}
+		}
+	}
+	// what was printed before the program is stopped stays printed (stray signals, faults), through the binary
+	for _, stop := range []string{Ret(""), Break(), Continue(), Print("1 / 0"), Print("ghost")} {
+		src := Lines(Print("12.5"), Print("1\u09e8.\u09eb"), Print("\u09e7\u09e8.5 == 12.5"), stop, Print("99"))
+		if c.Mine() {
+			c10Judge(c, &Case{Gen: "end-to-end-cli", Mode: "cli", Src: src})
+		}
+		if c.Mine() {
+			c10Judge(c, &Case{Gen: "end-to-end", Src: src})
 		}
 	}
 	// an interactive line of several thousand bytes made of literals, in either script
